@@ -25,14 +25,12 @@
       8  a datagram that is not sender-originated SRTLA control (keepalive / REG1 /
          REG2) left on an uplink during a housekeeping / uplink-packet step
       9  malformed observation (wrong number of uplinks) *)
-From Srtla Require Import Base Constants Wire Forward.
+From Srtla Require Import Base Constants Wire.
+From Srtla Require Export Forward.
 
 Definition dgram_eqb : dgram -> dgram -> bool := zlist_eqb.
 
 Record mlink := { m_pend : list cpy; m_since : option Z }.
-
-Definition has_fail (r : list sres) : bool :=
-  existsb (fun x => match x with SErr => true | SOk n => n <=? 0 end) r.
 
 (** the datagrams [w] seen on the wire must be the first |w| pending copies,
     unchanged and in order; what remains must still be queued (depth [q]) unless a
